@@ -260,6 +260,8 @@ def eval_stream(ck, pool, tier, syntaxes=("scss",)):
     for off in range(0, len(cases), B):
         chunk = cases[off:off + B]
         progs = [p for p, _ in chunk]
+        if off:
+            log(f"[C03] eval stream: {off}/{len(cases)} programs, {len(failing)} differing so far")
         impl, _ = run_impl(pool, [(p, None) for p in progs])
         asf = run_model(progs, DEV_ALL)
         spec = run_model(progs, "")
